@@ -225,7 +225,7 @@ Section Facts.
     rewrite Hc0. cbn [negb]. rewrite andb_false_r. rewrite Hbefore.
     fold N. pose proof (loop_spec d o t p c0 v1 N 0 (log s ++ [EvBefore t])) as HL.
     cbn [st_after chkseq] in HL. rewrite HL; clear HL.
-    - destruct (find_first (convk d o t p c0 v1) 1 N) as [k0|] eqn:EF.
+    - unfold Solver.finish. destruct (find_first (convk d o t p c0 v1) 1 N) as [k0|] eqn:EF.
       + replace (k0 - 0)%nat with k0 by lia.
         destruct (afterk o t k0 (st_after o t v1 k0)) as [v'' [c|]].
         * unfold with_vals. rewrite <- !app_assoc. reflexivity.
@@ -314,7 +314,7 @@ Section Facts.
     intros Hmm Hmax Hp Hoff Hfin Hb. unfold Solver.solve_t_M.
     replace (max_iter o <? min_iter o) with false by lia. rewrite Hp, Hoff. cbn [Z.eqb].
     rewrite Hfin. cbn [negb]. rewrite andb_false_r, Hb.
-    rewrite Hmax. cbn [Z.to_nat Solver.loop Nat.sub st_eqb andb stamp Z.of_nat].
+    rewrite Hmax. cbn [Z.to_nat Solver.loop Solver.finish Nat.sub st_eqb andb stamp Z.of_nat].
     destruct (fail_raise o); reflexivity.
   Qed.
 
